@@ -28,6 +28,48 @@ def xid_names(toks):
     return [t.string for t in toks if t.type == tokenize.NAME and _NONWORD.search(t.string)]
 
 
+_ID_FIELDS = ("id", "attr", "arg", "name", "module", "asname", "rest", "kwd_attrs", "names")
+
+
+def nfkc_identifiers(tree):
+    """In place: NFKC-normalise identifier-valued fields (the documented normaliser of finding F01h). Returns number changed."""
+    import unicodedata
+
+    n = 0
+    for node in ast.walk(tree):
+        for f in _ID_FIELDS:
+            v = getattr(node, f, None)
+            if isinstance(v, str) and not v.isascii():
+                w = unicodedata.normalize("NFKC", v)
+                if w != v:
+                    setattr(node, f, w)
+                    n += 1
+            elif isinstance(v, list) and v and all(isinstance(x, str) for x in v):
+                w = [unicodedata.normalize("NFKC", x) for x in v]
+                if w != v:
+                    setattr(node, f, w)
+                    n += 1
+    return n
+
+
+def compare(cp, tree, src):
+    """(remaining differences, findings whose exact normaliser was needed)"""
+    diffs = diff_trees(cp, tree)
+    used = []
+    if diffs and not src.isascii():
+        if bytecols_to_charcols(cp, src):
+            d2 = diff_trees(cp, tree)
+            if len(d2) < len(diffs) or not d2:
+                used.append("F01e")
+            diffs = d2
+        if diffs and nfkc_identifiers(tree):
+            d3 = diff_trees(cp, tree)
+            if len(d3) < len(diffs) or not d3:
+                used.append("F01h")
+            diffs = d3
+    return diffs, used
+
+
 def check_case(acc: Acc, src: str, mode: str, origin: str):
     toks = gen_py.py_tokens(src)
     if toks is None or not gen_py.in_c01_domain(src, toks):
@@ -50,7 +92,9 @@ def check_case(acc: Acc, src: str, mode: str, origin: str):
     if acc.evals % 997 == 1:
         acc.sample({"mode": mode, "origin": origin, "src": src[:200]})
     acc.count("outcome_" + out.cls())
-    depth = gen_py.nesting_depth(src, toks)
+    from .c03 import _crude_depth
+
+    depth = max(gen_py.nesting_depth(src, toks), _crude_depth(src))
     acc.maxi("max_nesting_depth", depth)
     if not out.accepted:
         if out.kind == "other" and isinstance(out.exc, RecursionError) and depth >= 15:
@@ -64,26 +108,17 @@ def check_case(acc: Acc, src: str, mode: str, origin: str):
                 neutral = neutral.replace(nm, f"xid_{i}_")
             k2, cp2 = base.cpython(neutral, mode)
             out2 = base.parse(neutral, mode)
-            if k2 == "tree" and out2.accepted:
-                d = diff_trees(cp2, out2.value)
-                if d and not neutral.isascii():
-                    bytecols_to_charcols(cp2, neutral)
-                    d = diff_trees(cp2, out2.value)
-                if not d:
-                    acc.finding("F01f", src[:120])
-                    return
+            if k2 == "tree" and out2.accepted and not compare(cp2, out2.value, neutral)[0]:
+                acc.finding("F01f", src[:120])
+                return
         acc.violation("rejected-valid-python", case, {"outcome": out.brief()})
         return
-    diffs = diff_trees(cp, out.value)
-    if diffs and not src.isascii():
-        n = bytecols_to_charcols(cp, src)
-        d2 = diff_trees(cp, out.value)
-        if n and not d2:
-            acc.finding("F01e", src[:120])
-            return
-        diffs = d2
+    diffs, used = compare(cp, out.value, src)
     if diffs:
         acc.violation("tree-differs", case, {"n": len(diffs), "diffs": [list(map(str, d)) for d in diffs[:6]]})
+        return
+    for fid in used:
+        acc.finding(fid, src[:120])
 
 
 def worker_init():
@@ -107,6 +142,8 @@ def run_shard(shard):
                     check_case(acc, m, "exec", "seed-layout")
         for s in EVAL_SEEDS:
             check_case(acc, s, "eval", "seed-eval")
+        for s in ("\u00b5 = 2\n", "x.\ufb01 = 1\n", "def f(\u00b5=1): return \u00b5\n", "import \u00b5 as \ufb01\n", "\u00e9 = f(x)\n", "x\U000e0100 = 1\n"):
+            check_case(acc, s, "exec", "unicode-identifier")
         for d in (3, 8, 12, 16, 20, 23, 25, 27, 30, 34, 40, 50):
             for o, c in ("()", "[]", "{}"):
                 check_case(acc, "x = " + o * d + ("1" if o != "{" else "") + c * d + "\n", "exec", "nesting")
